@@ -649,6 +649,8 @@ def seed_selftest(pid, repo):
             if ap.returncode != 0:
                 out.append({'seed': sid, 'applies_to_this_tree': False})
                 continue
+            # rsync -a restores old mtimes: make sure cargo never reuses a build of the previous seed
+            subprocess.run('find %s/src -name "*.rs" -exec touch {} +' % copy, shell=True)
             env = dict(os.environ, VERIF_WORK=os.path.join(base, 'work'), VERIF_CACHE=os.environ.get('VERIF_CACHE') or os.path.join(WORK, 'cache'), VERIF_SELFTEST='1')
             t0 = time.time()
             r = subprocess.run([sys.executable, os.path.abspath(__file__), pid, '--repo', copy, '--no-evidence', '--tier', 'quick'], capture_output=True, text=True, env=env)
